@@ -1098,6 +1098,14 @@ pub fn gen_macros(_asm: &Asm, sh: &mut Shards, path: &str, workdir: &str) {
         cases.push(json!({"lib":[{"name":"nothing","params":["a"],"body":[]},{"name":"hollow","params":["r"],"body":[{"k":"use","name":"nothing","args":[["r"]]},{"k":"use","name":"nothing","args":[["r"]]}]}],
                           "use":{"name":"hollow","args":[["cx"]]},"err":"","code":[],"times":times}).to_string());
     }
+    // macros without parameters: used once .. three times, from inside another macro, and holding a use themselves
+    for times in 1..=3u64 {
+        cases.push(json!({"lib":[{"name":"bare","params":[],"body":[{"k":"ins","toks":["inc","ax"]}]}],"use":{"name":"bare","args":[]},"err":"","code":[["inc","ax"]],"times":times}).to_string());
+        cases.push(json!({"lib":[{"name":"bare","params":[],"body":[{"k":"ins","toks":["inc","ax"]}]},{"name":"outer","params":["r"],"body":[{"k":"use","name":"bare","args":[]},{"k":"ins","toks":["inc","r"]},{"k":"use","name":"bare","args":[]}]}],
+                          "use":{"name":"outer","args":[["dx"]]},"err":"","code":[["inc","ax"],["inc","dx"],["inc","ax"]],"times":times}).to_string());
+        cases.push(json!({"lib":[{"name":"leaf","params":["q"],"body":[{"k":"ins","toks":["inc","q"]}]},{"name":"bare2","params":[],"body":[{"k":"use","name":"leaf","args":[["si"]]},{"k":"use","name":"leaf","args":[["di"]]}]}],
+                          "use":{"name":"bare2","args":[]},"err":"","code":[["inc","si"],["inc","di"]],"times":times}).to_string());
+    }
     // macros with 1 .. 14 parameters (names that are prefixes of each other: p1 / p10 / p11), every parameter used, in
     // source order and in reverse; the reference is the body written out by hand
     for n in 1..=14usize {
